@@ -1792,7 +1792,18 @@ def run_scenario(seed, shard, idx, tier):
                 stats["fired"].get("interrupt", 0) + 1
             same = (res.exit, res.stdout, res.fs) == \
                 (base.exit, base.stdout, base.fs)
-            if res.exit == 0 and not same:
+            # A run that claims success must still satisfy the ordinary
+            # differential oracle.  (Byte equality with the undisturbed run
+            # would demand too much: ruamel's serializer has a bare
+            # "except:" that swallows a KeyboardInterrupt and merely drops an
+            # unreferenced anchor -- the data is the same.)
+            if res.exit == 0 and not same and base.exit == 0 and \
+                    judge_run(scn, "file", recipe, ctx, res, dict(cache)):
+                stats["violations"].append(
+                    {"class": "%s:interrupted-but-exit-0-with-wrong-answer"
+                              % tool[5:], "scenario": scn, "channel": "file",
+                     "recipe": recipe, "faults": [plan]})
+            elif res.exit == 0 and not same and base.exit != 0:
                 stats["violations"].append(
                     {"class": "%s:interrupted-but-exit-0-with-wrong-answer"
                               % tool[5:], "scenario": scn, "channel": "file",
@@ -1854,7 +1865,14 @@ def rejudge(viol):
         if "short-read" in cls:
             return bool(res.fired) and not same, res
         if "interrupted" in cls:
-            return bool(res.fired) and res.exit == 0 and not same, res
+            if not (bool(res.fired) and res.exit == 0 and not same):
+                return False, res
+            if base.exit != 0:
+                return True, res
+            rng = random.Random(0)
+            runs = build_runs(rng, scn, recipe.get("knobs") or {})
+            ctx = runs["file"][1] if "file" in runs else {}
+            return bool(judge_run(scn, "file", recipe, ctx, res, {})), res
         return bool(res.fired) and res.exit == 0 and not same, res
     res = driver.execute(recipe)
     if "stdin-delivery-changes" in cls:
